@@ -39,3 +39,10 @@ add('C20', 'Hypothesis-generated writer histories (model-based: ordered field ta
     'writer and against a model; after every write an independent strict reader parses the file and all counts, connectivity, coordinates and values are '
     'compared with the model; consecutive writes must be byte-identical. Sampling of histories up to 11 operations.',
     'The checker-side reader is the reference for well-formedness; fields are supplied with documented shapes; contact edges use vertex node ids.')
+add('C13', 'Hypothesis-generated meshes (lattice / Delaunay with holes / structured, rotated and permuted numbering), set tables, mesh pairs and checker-written JSON / Exodus files; validity-predicate, brute-force and round-trip oracles',
+    'Generated search with a validity predicate over every returned Mesh (range, coverage, CCW orientation, set membership), a brute-force edge table for '
+    'create_edges, affine node placement / reversed shared edge nodes / node counts for order elevation 2..5 with and without bubble, containment of every '
+    'set member after merging (including equal names), and equality with what the checker wrote for the JSON and Exodus readers (TRI3/tri/TRI6, 1-3 blocks, '
+    'unnamed sets, element id maps). All structured sizes 2..6 are enumerated; everything else is sampled.',
+    'Input meshes are valid by construction; the checker-side Exodus writer follows the layout of optimism/test/patch_2_blocks.exo; '
+    'coordinates of structured meshes are compared to 1e-13 (numpy vs jax linspace).')
